@@ -20,6 +20,7 @@ import os
 
 from . import affine, ir, oracle, repo
 from .affine import (ONEBIT, ZERO, Machine, Ptr, Unsupported, atom_bit, const_bits, to_int)
+from .sponge import cbytes
 
 LEVEL = "other"
 MANIFEST = {
@@ -235,8 +236,7 @@ def rule_rounds(rep, m, cname):
     rep.functions += 1
     rl = round_loop(f)
     if rl is None:
-        rep.unproved_item(rid, "%s: no loop of ascon_permute runs a counter from first_round in steps of one up to 12; "
-                          "round-by-round proof not applicable" % cname)
+        _rounds_by_evaluation(rep, rid, m, f, cname)
         return
     cnt, latch_val, lp = rl
     latch_vals = [latch_val]
@@ -266,6 +266,68 @@ def rule_rounds(rep, m, cname):
         else:
             rep.instance(rid, 1, {"config": cname, "round": r, "identity": "320 polynomials equal",
                                   "monomials": sum(len(x) for x in want)})
+
+
+def _rounds_by_evaluation(rep, rid, m, f, cname):
+    """ascon_permute has no single-step round loop (unrolled, restructured): the
+    round-by-round identity does not apply.  The last round alone (first_round
+    = 11) is still compared as a polynomial identity for every state; for the
+    other starting rounds the function is evaluated by constant propagation on
+    fixed states: a difference is a witnessed violation, agreement leaves the
+    obligation unproved (never an alarm)."""
+    import hashlib
+    shape = "%s: no loop of ascon_permute runs a counter from first_round in steps of one up to 12" % cname
+    # first_round = 11: one round, all states
+    try:
+        mc = Machine(m)
+        mc.nonlinear = True
+        st = mc.new_obj("S", 40)
+        before = canon(mc, st)
+        mc.call("ascon_permute", [st, const_bits(11, 8)])
+        after = canon(mc, st)
+        want = words_to_bytes(spec_round(bytes_to_words(before), 11))
+        diff = [k for k in range(320) if after[k] != want[k]]
+        if diff:
+            rep.violation(rid, "ascon_permute:round11", f.src,
+                          "ascon_permute(state, 11) differs from the specification's last round in %d of 320 state bits "
+                          "(polynomial identity over all states)" % len(diff), config=cname, detail={"round": 11, "bits": diff[:32]})
+        else:
+            rep.instance(rid, 1, {"config": cname, "round": 11, "identity": "320 polynomials equal (whole function, first_round 11)"})
+    except Unsupported as e:
+        rep.unproved_item(rid, "%s; first_round 11: %s" % (shape, e))
+    states = [bytes(40), bytes([0xff] * 40)] + [
+        (hashlib.sha256(b"c08-%d-a" % k).digest() + hashlib.sha256(b"c08-%d-b" % k).digest())[:40] for k in range(3)]
+    for r in range(11):
+        bad = None
+        try:
+            for sb in states:
+                mc = Machine(m)
+                mc.nonlinear = True
+                st = mc.new_obj("S", 40, symbolic=False)
+                mc.store(st, cbytes(sb))
+                before = canon(mc, st)
+                mc.call("ascon_permute", [st, const_bits(r, 8)])
+                after = canon(mc, st)
+                if not (affine.is_const(before) and affine.is_const(after)):
+                    raise Unsupported("evaluation on a constant state did not give a constant")
+                w = bytes_to_words(before)
+                for q in range(r, 12):
+                    w = spec_round(w, q)
+                want = words_to_bytes(w)
+                if tuple(after) != tuple(want):
+                    bad = sb
+                    break
+        except Unsupported as e:
+            rep.unproved_item(rid, "%s; first_round %d: %s" % (shape, r, e))
+            continue
+        if bad is not None:
+            rep.violation(rid, "ascon_permute:first_round%d" % r, f.src,
+                          "ascon_permute(state, %d) is not the specification's permutation with %d round(s): for the state whose "
+                          "stored bytes are %s the result differs (evaluated by constant propagation through the function)" % (
+                              r, 12 - r, bad.hex()), config=cname, detail={"first_round": r, "state": bad.hex()})
+        else:
+            rep.unproved_item(rid, "%s; first_round %d: round-by-round proof not applicable, %d constant evaluations agree "
+                              "with the specification" % (shape, r, len(states)))
 
 
 def _is_cast_of(f, v, src):
